@@ -1,29 +1,41 @@
 ---------------------------- MODULE Trace_Joypad ----------------------------
 (***************************************************************************)
 (* impl -> spec: validates recorded joypad histories against Joypad.tla.   *)
-(* Each record: {ev: "reset"|"press"|"release"|"select"|"collect", arg,    *)
-(*               p1: value read at 0xFF00 & 0x3F afterwards, out: 0/1}     *)
-(* A "reset" record starts a new history from power-on.                    *)
+(* Each record: {ev, arg, p1: value read at 0xFF00 & 0x3F afterwards,      *)
+(*               out: 0/1, if4: bit 4 of IF as the bus shows it afterwards}*)
+(*   reset            a new history from power-on                          *)
+(*   press/release b  the environment                                      *)
+(*   select v         a bus write of v to P1                               *)
+(*   collect          IF := 0, one machine cycle of device time, out = IF.4*)
+(*   ack              IF := 0                                              *)
+(*   tick how         one machine cycle of device time without             *)
+(*                    acknowledging first: directly (0), through           *)
+(*                    Core::update of a halted (1) or stopped (2) CPU      *)
+(* The request reaches IF when device time passes, not before ("reported   *)
+(* once"): ifb is IF bit 4 according to the specification, and every       *)
+(* record's if4 must equal it.                                             *)
 (***************************************************************************)
 EXTENDS Joypad, TLC, IOUtils, Json, Sequences
 
 Recs == ndJsonDeserialize(IOEnv.TRACE)
 
-VARIABLES joy, l
+VARIABLES joy, ifb, l
 
-Init == joy = PowerOn /\ l = 1
+Init == joy = PowerOn /\ ifb = FALSE /\ l = 1
 
 IsEvent(e) == l <= Len(Recs) /\ Recs[l].ev = e /\ l' = l + 1
+Seen == P1(joy') = Recs[l].p1 /\ B2N(ifb') = Recs[l].if4
 
-Reset   == IsEvent("reset") /\ joy' = PowerOn /\ P1(joy') = Recs[l].p1
-DoPress == IsEvent("press") /\ joy' = Press(joy, Recs[l].arg) /\ P1(joy') = Recs[l].p1
-DoRelease == IsEvent("release") /\ joy' = Release(joy, Recs[l].arg) /\ P1(joy') = Recs[l].p1
-DoSelect == IsEvent("select") /\ joy' = Select(joy, Recs[l].arg) /\ P1(joy') = Recs[l].p1
-DoCollect == IsEvent("collect") /\ joy' = Collect(joy).js /\ B2N(Collect(joy).out) = Recs[l].out
-             /\ P1(joy') = Recs[l].p1
+Reset   == IsEvent("reset") /\ joy' = PowerOn /\ ifb' = FALSE /\ Seen
+DoPress == IsEvent("press") /\ joy' = Press(joy, Recs[l].arg) /\ UNCHANGED ifb /\ Seen
+DoRelease == IsEvent("release") /\ joy' = Release(joy, Recs[l].arg) /\ UNCHANGED ifb /\ Seen
+DoSelect == IsEvent("select") /\ joy' = Select(joy, Recs[l].arg) /\ UNCHANGED ifb /\ Seen
+DoCollect == IsEvent("collect") /\ joy' = Collect(joy).js /\ ifb' = Collect(joy).out /\ B2N(ifb') = Recs[l].out /\ Seen
+DoAck == IsEvent("ack") /\ UNCHANGED joy /\ ifb' = FALSE /\ Seen
+DoTick == IsEvent("tick") /\ joy' = Collect(joy).js /\ ifb' = (ifb \/ Collect(joy).out) /\ Seen
 
-Next == Reset \/ DoPress \/ DoRelease \/ DoSelect \/ DoCollect
-TraceSpec == Init /\ [][Next]_<<joy, l>>
+Next == Reset \/ DoPress \/ DoRelease \/ DoSelect \/ DoCollect \/ DoAck \/ DoTick
+TraceSpec == Init /\ [][Next]_<<joy, ifb, l>>
 
 Matched == TLCGet("stats").diameter - 1
 TraceAccepted ==
